@@ -2,6 +2,7 @@ import Mp.CueFunc3
 import Mp.CueFunc
 import Mp.CueFunc2
 import Mp.ProofsRK
+import Mp.CueAstProofs
 /-! C14 — property theorems (proved in the imported modules; statements are checked there, axioms audited here). -/
 #print axioms Mp.validOnOk_iff_admits
 #print axioms Mp.every_row_admits_something
@@ -17,3 +18,6 @@ import Mp.ProofsRK
 #print axioms Mp.over_long_rejected
 #print axioms Mp.asArray_twice_then_element
 #print axioms Mp.asArray_once_then_element
+#print axioms Mp.vParams_lits_some
+#print axioms Mp.paramCheck_keeps_none
+#print axioms Mp.over_long_literals_rejected
